@@ -29,12 +29,12 @@ DSYM = ['a', ' ', ',', 'é', '€']                    # DiskSink lines (no term
 
 NUM = ['1', '2.5', '-3', None]
 NUM_SPARSE = ['1', '2.5', '-3', '0', None]
-STR_FULL = ['a', 'a b', 'a,b', "it's", 'say "x"', 'back\\slash', '%', '?', '{x}', 'é', None]
-STR_SMALL = ['a', 'a,b', "it's", 'say "x"', 'back\\slash', '?', None]
+STR_FULL = ['a', '', 'a b', 'a,b', "it's", 'say "x"', 'back\\slash', '%', '?', '{x}', 'é', None]      # '' is a legal value (Weka writes '')
+STR_SMALL = ['a', '', 'a,b', "it's", 'say "x"', 'back\\slash', '?', None]
 STR_TINY = ['a', 'a,b', "it's", 'say "x"', 'back\\slash', None]
 STR_TINY5 = ['a', 'a,b', "it's", 'say "x"', None]
 NUM_TINY = ['1', '-3', None]
-LEVELS = [['a', 'b'], ['a b', 'a,b'], ["it's", 'say "x"'], ['back\\slash', '%'], ['?', '{x}', 'é'], ['1', '2.5']]
+LEVELS = [['a', 'b'], ['a b', 'a,b'], ["it's", 'say "x"'], ['back\\slash', '%'], ['?', '{x}', 'é'], ['1', '2.5', '']]
 NAMES = ['my col', "it's", 'a,b', 'é', 'say "x"', '%x', 'back\\slash', '{x}', '?', 'numeric']
 SPECS_FULL = ([{'kind': 'numeric'}, {'kind': 'string'}, {'kind': 'nominal', 'levels': LEVELS[0]}, {'kind': 'date', 'datefmt': 'yyyy-MM-dd'}]
               + [{'kind': 'nominal', 'levels': l} for l in LEVELS[1:]] + [{'kind': 'date', 'datefmt': 'yyyy-MM-dd HH:mm'}])
@@ -134,7 +134,7 @@ class C12(Check):
         'LibSVM/Manik rows without a label are dropped by coba by (pinned) design and are outside the alphabet; labels are compared as the written strings',
         'CSV cells are compared as strings (CsvReader is untyped); missing = empty field; cells with leading/trailing blanks or embedded line breaks are outside the alphabet',
         'a nominal declaration that repeats a level is not valid ARFF: it may be rejected; if accepted the cells must carry a duplicate-free list of exactly the declared levels (order not constrained) with matching as_int/as_onehot',
-        'rows are materialised in file order (lazy access order is C13)',
+        'every returned row is read through every access path (list(row), row[i], row[name]; sparse: items() and row[key]) and the paths must agree; rows are materialised in file order (lazy access order is C13)',
     ]
     TECHNIQUE = 'bounded-exhaustive enumeration of texts x encodings x chunk sizes and of tables x dialect variants on the real readers/sources vs. plain-Python reference writers'
     LEVEL_TEXT = ('Every text up to the length bound is delivered in every chunk size under every content encoding and every small table is written in the '
@@ -370,13 +370,14 @@ class C12(Check):
             with open(path, 'wb') as f: f.write(gz(data) if d['gz'] else data)
             try:
                 if fmt.startswith('csv'):
-                    got = [(list(r), dict(r.headers) if fmt == 'csvh' else None) for r in CsvSource(path, has_header=(fmt == 'csvh')).read()]
+                    got = [(list(r), dict(r.headers) if fmt == 'csvh' else None, [r[i] for i in range(len(r))], {h: r[h] for h in r.headers} if fmt == 'csvh' else None)
+                           for r in CsvSource(path, has_header=(fmt == 'csvh')).read()]
                     r = F.csv_compare(names, rows, fmt == 'csvh', got)
                 else:
                     sparse = fmt == 'arff-sparse'
                     got = []
                     for row in ArffSource(path).read():
-                        got.append(({k: F._canon(x) for k, x in row.items()}, row.missing, None) if sparse else ([F._canon(x) for x in row], row.missing, dict(row.headers)))
+                        got.append(F.observe_row(row, sparse))
                     r = F.arff_compare(cols, rows, sparse, got)
             except Exception as e:   # noqa
                 return ('reject', type(e).__name__, f'{e!r}'[:160] + f' <- {lines}')
